@@ -183,6 +183,139 @@ def family_program(rnd: random.Random, p: Dict[str, Any]) -> Dict[str, Any]:
     return q
 
 
+# ------------------------------------------------------------------ partials (component tags inside included templates)
+def _has(n, kinds) -> bool:
+    if n["t"] in kinds:
+        return True
+    return any(_has(c, kinds) for k in ("a", "b") if isinstance(n.get(k), list) for c in n[k])
+
+
+def _has_comp_body(n) -> bool:
+    if n["t"] == "comp" and n.get("body") in ("impl", "fills") and n.get("a"):
+        return True
+    return any(_has_comp_body(c) for k in ("a", "b") if isinstance(n.get(k), list) for c in n[k])
+
+
+def _free_defref(n, bound=frozenset()) -> bool:
+    """A default alias used in the subtree whose {% fill default=.. %} lies outside of it."""
+    if n["t"] == "defref":
+        return n["x"] not in bound
+    if n["t"] == "fill" and n.get("fv"):
+        bound = bound | {n["fv"]}
+    return any(_free_defref(c, bound) for k in ("a", "b") if isinstance(n.get(k), list) for c in n[k])
+
+
+def _block_names(nodes, acc=None) -> List[str]:
+    acc = [] if acc is None else acc
+    for n in nodes:
+        if n["t"] == "block" and n["name"] not in acc:
+            acc.append(n["name"])
+        for k in ("a", "b"):
+            if isinstance(n.get(k), list):
+                _block_names(n[k], acc)
+    return acc
+
+
+def _positions(nodes, fill_level=False, in_body=False):
+    """Every (list, index, inside-a-component-body?) of a node standing at an ordinary position (where any tag
+    may be written): not the fill level of a component body with explicit fills."""
+    for k, n in enumerate(nodes):
+        if not fill_level and n["t"] != "fill":
+            yield nodes, k, in_body
+        for key in ("a", "b"):
+            kids = n.get(key)
+            if not isinstance(kids, list):
+                continue
+            if n["t"] == "comp":
+                yield from _positions(kids, n.get("body") == "fills", True)
+            elif n["t"] == "fill":
+                yield from _positions(kids, False, in_body)
+            else:
+                yield from _positions(kids, fill_level, in_body)
+
+
+def add_partials(rnd: random.Random, q: Dict[str, Any]) -> Dict[str, Any]:
+    """Move chunks of the templates of a family program into included PARTIALS - wherever the chunk stands: in the
+    base or in a block override of the page's family, of a component's family, in a plain template, in an existing
+    partial - preferring chunks that hold component tags with a body, and write {% block %} tags inside the partial,
+    around nodes inside the fills / the implicit body of those component tags and around nodes beside them.  The block
+    names are (mostly) names of blocks of the INCLUDING family.  An included template is a family of its own
+    (DjcFamilies!Inline: an include is inlined with no overrides), so every such block stands for its own content and
+    Flat(program) is the program before this pass."""
+    tpls = q["tpls"]
+    by_name = {t["name"]: t for t in tpls}
+    fams = []                      # (roots: the node lists of the templates of one family, prefix of its partial names)
+    hosts = [("page", q.get("pext"), q["page"])] + [(f"c{i}", c.get("ext"), c["tpl"]) for i, c in enumerate(q["comps"], start=1)]
+    for label, ext, nodes in hosts:
+        roots = [nodes]
+        if ext:
+            roots.append(by_name[ext]["a"])
+        inc = by_name.get(f"vf_{q['id']}_{label}_inc.html")
+        if inc is not None:
+            roots.append(inc["a"])
+        fams.append((label, roots))
+    every = _block_names([n for _, roots in fams for r in roots for n in r])
+    made = 0
+    for _ in range(rnd.choice([1, 1, 2, 3])):
+        label, roots = rnd.choice(fams)
+        names = _block_names([n for r in roots for n in r])
+        cands = [(lst, k) for r in roots for lst, k, _b in _positions(r)
+                 if lst[k]["t"] not in ("block", "super", "include", "defref") and not _has(lst[k], {"super"})
+                 and not _free_defref(lst[k])]
+        rich = [c for c in cands if _has_comp_body(c[0][c[1]])]
+        if rich and rnd.random() < 0.85:
+            cands = rich
+        if not cands:
+            continue
+        lst, k = rnd.choice(cands)
+        chunk = lst[k]
+        # {% block %} tags inside the partial (a name may be used once per template)
+        holder = [chunk]
+        used = set(_block_names(holder))
+        spots = [(l2, k2, b2) for l2, k2, b2 in _positions(holder)
+                 if l2[k2]["t"] not in ("block", "super", "include", "fill") and not _has(l2[k2], {"defref"})]
+        inside = [s for s in spots if s[2]]
+        picks = [rnd.choice(inside)] if inside else []
+        picks += [s for s in spots if rnd.random() < 0.15]
+        fresh = 0
+        done = set()
+        for l2, k2, _b in picks:
+            if (id(l2), k2) in done:
+                continue
+            done.add((id(l2), k2))
+            pool = [n for n in (names if names and rnd.random() < 0.8 else every) if n not in used]
+            if pool and rnd.random() < 0.9:
+                bn = rnd.choice(pool)
+            else:
+                fresh += 1
+                bn = f"{label}p{made}f{fresh}"
+            used.add(bn)
+            l2[k2] = {"t": "block", "name": bn, "a": [l2[k2]]}
+        made += 1
+        name = f"vf_{q['id']}_{label}_part{made}.html"
+        part = {"name": name, "a": holder}
+        lst[k] = {"t": "include", "name": name}
+        tpls.append(part)
+        by_name[name] = part
+        # the new partial belongs to the family that includes it (later chunks may be taken out of it)
+        roots.append(part["a"])
+    q["partials"] = made
+    return q
+
+
+def _partial_block_in_body(p) -> int:
+    """1 if a partial of the program holds a {% block %} inside the body of a component tag."""
+    def walk(nodes, inside=False):
+        for n in nodes:
+            if n["t"] == "block" and inside:
+                return True
+            for k in ("a", "b"):
+                if isinstance(n.get(k), list) and walk(n[k], inside or n["t"] == "comp"):
+                    return True
+        return False
+    return int(any(walk(t["a"]) for t in p["tpls"] if "_part" in t["name"]))
+
+
 def _real_family(prog):
     """Render a family program for real: templates go to the locmem loader."""
     from django.template import Context, Template, engines
@@ -399,7 +532,7 @@ def _stock_case(q):
     return out
 
 
-def body(chk: Check, *, n_stock: int, n_fam: int, deep: int) -> None:
+def body(chk: Check, *, n_stock: int, n_fam: int, deep: int, n_part: int = 0) -> None:
     boot.locmem()
     rnd = random.Random(chk.seed * 1000003 + 10)
     # ---- (a) differential patched vs stock vs specification
@@ -438,6 +571,13 @@ def body(chk: Check, *, n_stock: int, n_fam: int, deep: int) -> None:
         p = g.program(10 ** 5 + i, P.MODES[i % 2])
         p["block_names_collide"] = i % 10 == 9
         fam.append(family_program(rnd, p))
+    # ... and families with PARTIALS: component tags (with {% block %} tags inside their fills that bear the names of
+    # blocks of the including family) written inside included templates, the {% include %} anywhere in a page family,
+    # a component's family or a plain template (generated after the batch above: its programs stay what they were)
+    for i in range(n_part):
+        p = g.program(2 * 10 ** 5 + i, P.MODES[i % 2])
+        p["block_names_collide"] = i % 10 == 9
+        fam.append(add_partials(rnd, family_program(rnd, p)))
     expf = djc.oracle(fam, module="Eval_Fam")
     chk.add("states", djc.oracle.last_states)
     obs = pmap(_real_family, fam, workers=12)
@@ -450,6 +590,9 @@ def body(chk: Check, *, n_stock: int, n_fam: int, deep: int) -> None:
             chk.add("zone", 1)
             continue
         chk.count(["family", p["mode"], p["page"], p["comps"], p["tpls"]], nontrivial=bool(p["tpls"]))
+        if p.get("partials"):
+            chk.add("families_with_partials", 1)
+            chk.add("partials_with_block_in_component_body", _partial_block_in_body(p))
         m = djc.mismatch(e, o)
         if m is not None:
             bad.append((p, o, m))
@@ -485,9 +628,9 @@ def run(tier: str) -> int:
     boot.setup()
     chk = Check(PID, tier, "model_checking")
     if tier == "quick":
-        body(chk, n_stock=4000, n_fam=4000, deep=3)
+        body(chk, n_stock=4000, n_fam=4000, deep=3, n_part=800)
     else:
-        body(chk, n_stock=20000, n_fam=20000, deep=4)
+        body(chk, n_stock=20000, n_fam=20000, deep=4, n_part=4000)
     chk.cov["transitions"] = chk.cov.get("states", 0)
     chk.cov["exhaustive"] = False
     chk.cov["rule"] = ("seeded stock templates/families (text, var, if/for/with, include, extends/block/block.super + opaque built-ins, "
